@@ -81,6 +81,11 @@ class VAlloc:
             if sys.getrefcount(t) <= self._only_mine:
                 dead.append(rid)
             del t
+        if self.policy == "recycle":
+            # Tuples found dead in the same sweep are pushed youngest first, so the OLDEST one ends up on top of the LIFO
+            # stack: within one library call the short-lived temporaries die before the long-lived storage that the call
+            # finally replaces, and CPython's free list hands out the most recently freed block first.
+            dead = dead[::-1]
         for rid in dead:
             ent = self.map.pop(rid)
             if self.policy == "adversarial":
